@@ -12,12 +12,15 @@ pub const TERMINATOR: Node = [0u8; 32];
 pub enum HasherKind {
     Blake3,
     Sha2,
+    /// blake3 with the node kind kept in the two LOW bits of the LAST byte (01 = leaf, 10 = internal) instead of the
+    /// MSB: `NodeHasher` explicitly allows labelling schemes other than the MSB one. Used by the pure-core checks only.
+    TailLabel,
 }
 
 impl HasherKind {
     pub fn hash_value(self, v: &[u8]) -> [u8; 32] {
         match self {
-            HasherKind::Blake3 => *blake3::hash(v).as_bytes(),
+            HasherKind::Blake3 | HasherKind::TailLabel => *blake3::hash(v).as_bytes(),
             HasherKind::Sha2 => {
                 use sha2::Digest;
                 sha2::Sha256::digest(v).into()
@@ -32,12 +35,20 @@ impl HasherKind {
     }
     pub fn leaf(self, key: &Key, vh: &[u8; 32]) -> Node {
         let mut h = self.h64(key, vh);
-        h[0] |= 0x80;
+        if self == HasherKind::TailLabel {
+            h[31] = (h[31] & 0xfc) | 1;
+        } else {
+            h[0] |= 0x80;
+        }
         h
     }
     pub fn internal(self, l: &Node, r: &Node) -> Node {
         let mut h = self.h64(l, r);
-        h[0] &= 0x7f;
+        if self == HasherKind::TailLabel {
+            h[31] = (h[31] & 0xfc) | 2;
+        } else {
+            h[0] &= 0x7f;
+        }
         h
     }
 }
